@@ -79,7 +79,8 @@ func permutations(n int) [][]int {
 
 func C13(c *fw.Ctx) {
 	c.R.Rule = "programs that meet iteration-order choice points (object literals with side-effecting initialisers in every source order, key/value listings of objects built by literals, writes and deletes, diagnostics quoting an object literal, the object histories of C12, the shipped examples without their ক্লক line) x every schedule (unbounded for <=3 choice points, else <=2 deviations) x two clock instants: one outcome (stdout, status, first diagnostic); plus repeated fresh uninstrumented processes (supplementary); distinct by (clock, schedule, text)"
-	keys := []string{"ka", "kb", "kc", "kd", "ke"}
+	keys := []string{"ka", "k\u09DF", "kc", "k\u09AF\u09BC", "ke", "e\u0301", "\u00e9"}
+	keys = []string{keys[0], keys[1], keys[3], keys[5], keys[6], keys[2]}
 	// A: literals with probes, every source order; model-checked under every schedule
 	maxK := 4
 	for n := 1; n <= maxK; n++ {
